@@ -1,54 +1,4 @@
-/- GENERATED by tools/extract_effect.py from src/random.rs (shuffle, partial_shuffle, index) on every run - do not edit. -/
-import Urandom.Model.Effect
-set_option linter.unusedVariables false
+/- tools/extract_effect.py could not translate the current source: TranslateError: index: the body is not one expression -/
 namespace Urandom.Generated.Effect
-open Urandom
-
-namespace random
-def shuffle_while1 {σ : Type} (index : σ → BitVec 64 → BitVec 64 × σ)  : Nat → BitVec 64 × σ × List (BitVec 64 × BitVec 64) × Bool → BitVec 64 × σ × List (BitVec 64 × BitVec 64) × Bool
-  | 0, st =>
-    let (len, rng, log, diverged) := st
-    (len, rng, log, true)
-  | fuel + 1, st =>
-    let (len, rng, log, diverged) := st
-    if (len > 1#64) then
-      let (d1, rng) := index rng len
-      let k := d1
-      let log := log ++ [(k, (len - 1#64))]
-      let len := (len - 1#64)
-      shuffle_while1 index  fuel (len, rng, log, diverged)
-    else st
-
-def shuffle {σ : Type} (index : σ → BitVec 64 → BitVec 64 × σ) (rng : σ) (slice_len : BitVec 64) : List (BitVec 64 × BitVec 64) × σ × Bool :=
-  let log : List (BitVec 64 × BitVec 64) := []
-  let diverged := false
-  let len := slice_len
-  let (len, rng, log, diverged) := shuffle_while1 index  (2 ^ 64) (len, rng, log, diverged)
-  (log, rng, diverged)
-end random
-
-namespace random
-def partial_shuffle_for1 {σ : Type} (range : σ → BitVec 64 → BitVec 64 → BitVec 64 × σ) (slice_len : BitVec 64) (st : σ × List (BitVec 64 × BitVec 64)) (i_nat : Nat) : σ × List (BitVec 64 × BitVec 64) :=
-  let (rng, log) := st
-  let i := BitVec.ofNat 64 i_nat
-  let (d1, rng) := range rng i slice_len
-  let k := d1
-  let log := log ++ [(i, k)]
-  (rng, log)
-
-def partial_shuffle {σ : Type} (range : σ → BitVec 64 → BitVec 64 → BitVec 64 × σ) (rng : σ) (slice_len : BitVec 64) (n : BitVec 64) : List (BitVec 64 × BitVec 64) × σ :=
-  let log : List (BitVec 64 × BitVec 64) := []
-  let (n, rng, log) := if (slice_len > 1#64) then
-        let n := (if n ≤ (slice_len - 1#64) then n else (slice_len - 1#64))
-        let (rng, log) := (List.range' 0 (n).toNat).foldl (partial_shuffle_for1 range slice_len) (rng, log)
-        (n, rng, log)
-      else
-        (n, rng, log)
-  (log, rng)
-end random
-
-namespace random
-def index_args (len : BitVec 64) : BitVec 64 × BitVec 64 := (0#64, len)
-end random
-
+def translation_failed_EffectShuffle : Nat := translation_of_the_current_source_failed
 end Urandom.Generated.Effect
